@@ -535,9 +535,10 @@ def str_parse(ex, args):
     if isinstance(v, str):
         return parse_f64_concrete(v)
     seq = v.seq
-    # find a concrete '.' position if any: symbolic strings here are digits [ '.' digits ]
+    parts = v.parts
+    is_decimal_structure = parts is not None and len(parts) == 3 and parts[1] == '.'
     dots = [i for i, e in enumerate(seq.elems) if not is_sym(e) and e == 46]
-    if not dots:
+    if not dots and not is_decimal_structure:
         valid = And(Not(eq_any(seq.len, 0, 64)), all_ascii_digits(seq))
         ex.bound_if(Not(ule(seq.len, 38)), 'more than 38 digits')
         val = F64Exact(None, 0, False, seq)
@@ -546,7 +547,18 @@ def str_parse(ex, args):
             return ok(val)
         return Enum('Result', z3.If(valid, z3.BitVecVal(0, 64), z3.BitVecVal(1, 64)),
                     ((0, (val,)), (1, (Struct('ParseFloatError', ()),))))
-    raise Unsupported('parse of a symbolic string containing a decimal point (use structured strings)')
+    parts = v.parts
+    if parts is not None and len(parts) == 3 and parts[1] == '.' and all(isinstance(p, (str, SymStr)) for p in (parts[0], parts[2])):
+        a, b = to_symstr(parts[0]).seq, to_symstr(parts[2]).seq
+        # Rust accepts "12." and ".5" too; here both sides are digit strings produced by DigitString::to_string
+        valid = And(all_ascii_digits(a), all_ascii_digits(b), Not(And(eq_any(a.len, 0, 64), eq_any(b.len, 0, 64))))
+        val = F64Dec(a, b)
+        cb = concrete_bool(valid)
+        if cb is True:
+            return ok(val)
+        return Enum('Result', z3.If(valid, z3.BitVecVal(0, 64), z3.BitVecVal(1, 64)),
+                    ((0, (val,)), (1, (Struct('ParseFloatError', ()),))))
+    raise Unsupported('parse of a symbolic string containing a decimal point (no structure kept)')
 
 
 def parse_f64_concrete(s: str):
@@ -558,15 +570,95 @@ def parse_f64_concrete(s: str):
     m2 = re.fullmatch(r'([0-9]+)(?:\.([0-9]*))?', s)
     if m2:
         ip, fp = m2.group(1), m2.group(2) or ''
+        if m2.group(2):
+            return ok(F64Dec(seq_from_bytes(ip.encode()), seq_from_bytes(fp.encode())))
         return ok(F64Exact(int(ip + fp), len(fp), False, seq_from_bytes((ip + fp).encode())))
     return ok(float(s))
+
+
+class F64Dec:
+    """the decimal int.frac with (possibly symbolic) digit strings for both parts"""
+    type_name = 'f64'
+    scale = None
+
+    def __init__(self, int_src, frac_src):
+        self.int_src = int_src
+        self.frac_src = frac_src
+        self.src = None
+
+    def to_fp(self):
+        a, b = symstr_concrete(SymStr(self.int_src)), symstr_concrete(SymStr(self.frac_src))
+        if a is None or b is None:
+            raise Unsupported('IEEE value of a symbolic decimal fraction')
+        return float(a + '.' + b)
+
+    def compare_const(self, op, t):
+        """decided through the integer part when that suffices (|int - t| >= 1), else not decidable here"""
+        import math
+        if math.isnan(t):
+            return op == 'Ne'
+        if t <= 0 and op in ('Lt', 'Le'):
+            return False
+        if t < 0 and op in ('Gt', 'Ge'):
+            return True
+        if t == float('inf'):
+            return {'Lt': True, 'Le': True, 'Gt': False, 'Ge': False, 'Eq': False, 'Ne': True}[op]
+        n = bv(digits_value(None, self.int_src), 128)
+        fl = math.floor(t)
+        below = z3.ULT(n + 1, z3.BitVecVal(fl + 1, 128)) if fl >= 0 else z3.BoolVal(False)      # int + 1 <= floor(t)
+        above = z3.UGE(n, z3.BitVecVal(math.ceil(t), 128)) if t > 0 else z3.BoolVal(True)         # int >= ceil(t)
+        decided = z3.Or(below, above)
+        res = {'Lt': below, 'Le': below, 'Gt': above, 'Ge': above}.get(op)
+        if res is None:
+            return None
+        return ('guarded', decided, res)
+
+    def merge_with(self, c, other):
+        if isinstance(other, F64Dec):
+            return F64Dec(seq_ite(c, self.int_src, other.int_src), seq_ite(c, self.frac_src, other.frac_src))
+        return None
+
+    def same_as(self, o):
+        return isinstance(o, F64Dec) and same(self.int_src, o.int_src) and same(self.frac_src, o.frac_src)
+
+
+class F64Recip:
+    """1 / inner, inner an exact non-negative value (Spanish fractions '1/n')"""
+    type_name = 'f64'
+
+    def __init__(self, inner):
+        self.inner = inner
+
+    def to_fp(self):
+        v = self.inner.to_fp()
+        if is_sym(v):
+            return z3.fpDiv(z3.RNE(), z3.FPVal(1.0, z3.Float64()), v)
+        return float('inf') if v == 0 else 1.0 / v
+
+    def compare_const(self, op, t):
+        import math
+        if math.isnan(t):
+            return op == 'Ne'
+        if t <= 0:
+            return {'Lt': False, 'Le': False, 'Gt': True, 'Ge': True, 'Eq': False, 'Ne': True}[op]
+        return None
+
+    def merge_with(self, c, other):
+        if isinstance(other, F64Recip):
+            m = self.inner.merge_with(c, other.inner)
+            if m is not None:
+                return F64Recip(m)
+        return None
+
+    def same_as(self, o):
+        return isinstance(o, F64Recip) and self.inner.same_as(o.inner)
 
 
 @intrinsic('f64::recip')
 def f64_recip(ex, args):
     v = args[0]
     if isinstance(v, F64Exact):
-        v = v.to_fp()
+        return F64Recip(v)
     if is_sym(v):
         return z3.fpDiv(z3.RNE(), z3.FPVal(1.0, z3.Float64()), v)
     if v == 0:
@@ -666,7 +758,10 @@ def concat_pieces(ex, pieces):
             continue
         ps = to_symstr(p).seq
         acc = ps if acc is None else seq_append(ex, acc, ps)
-    return norm_str(SymStr(acc if acc is not None else Seq((), 0, 'u8')))
+    res = norm_str(SymStr(acc if acc is not None else Seq((), 0, 'u8')))
+    if isinstance(res, SymStr):
+        res = SymStr(res.seq, tuple(p for p in pieces if not (isinstance(p, str) and p == '')))
+    return res
 
 
 @intrinsic('_eprint', '_print', 'io::_eprint', 'io::_print', 'stdio::_eprint', 'stdio::_print')
@@ -851,21 +946,48 @@ def str_index(ex, s, idx):
     return b[st:en].decode('utf-8')
 
 
+class PartsStr:
+    """a String kept as the list of its pieces (each a str, SymStr or Choice of those): the result of join() over tokens
+    whose texts are solver-chosen, so that the harness can compare it piecewise"""
+    type_name = 'String'
+
+    def __init__(self, parts):
+        self.parts = tuple(parts)
+
+    def same_as(self, o):
+        return isinstance(o, PartsStr) and len(o.parts) == len(self.parts) and all(same(a, b) for a, b in zip(self.parts, o.parts))
+
+    def merge_with(self, c, other):
+        if isinstance(other, PartsStr) and len(other.parts) == len(self.parts):
+            return PartsStr(tuple(ite(c, a, b) for a, b in zip(self.parts, other.parts)))
+        return None
+
+
 @intrinsic('[BasicToken]::join', '[T]::join', '[String]::join', '[&str]::join', 'Join::join')
 def slice_join(ex, args):
     seq = as_seq(ex, args[0])
     sep = C(ex, args[1])
     n = ex.concretize_int(seq.len, 0, seq.cap, 'join length')
     pieces = []
+    lifted = False
     for i in range(n):
         if i and sep:
             pieces.append(sep)
         e = seq.elems[i]
+        if isinstance(e, Choice) and ex.lift_choices:
+            # Borrow<str> for BasicToken is its text field
+            pieces.append(merge_many([(c, _token_text(ex, a)) for c, a in e.alts]))
+            lifted = True
+            continue
         if isinstance(e, Choice):
             e = ex.concretize(e)
-        if isinstance(e, Struct) and e.ty == 'BasicToken':
-            e = e.fields[0]     # Borrow<str> for BasicToken is .text; MIR of borrow() is executed below
-        if isinstance(e, Choice):
-            e = ex.concretize(e)
-        pieces.append(S(ex, e))
-    return concat_pieces(ex, pieces)
+        pieces.append(_token_text(ex, e))
+    if lifted or any(isinstance(p, Choice) for p in pieces):
+        return PartsStr(pieces)
+    return concat_pieces(ex, [S(ex, p) for p in pieces])
+
+
+def _token_text(ex, e):
+    if isinstance(e, Struct) and e.ty == 'BasicToken':
+        return ex.call_path('<BasicToken as Borrow<str>>::borrow', [e])
+    return e
